@@ -431,14 +431,17 @@ fn run(case: &Case) -> Outcome {
 }
 
 /// Exhaustive small scope for the local facts ("for all reachable sets"): every arrival sequence of 1-4 operations with
-/// distinct stamps out of five stamps from two origins spread over two forgiveness periods, keys {1,2}, insert / delete,
+/// distinct stamps out of six stamps from two origins (an old stamp of origin 2; origin 1 at 100000 s, twice 1000 s later, twice 4700 s later), keys {1,2}, insert / delete,
 /// either source, a purge after any subset of the operations and always at the end.
 /// Words: [k, purge mask, (stamp index, bits: key | kind | source) x k].
 pub struct LocalSmall;
 
-fn small_stamps() -> [Stamp; 5] {
+fn small_stamps() -> [Stamp; 6] {
+    // origin 1 deletes at 100 000 s; two of its stamps lie 1000 s later (both sources can move past the delete by LESS than a
+    // forgiveness period: a purge must not bite), two lie 4700 s later (both sources can move past it by more: a purge may
+    // bite); origin 2 has a stamp older than all of them (the timely, older operation that must stay refused / lose)
     let s = |secs: u64, node: u8| Stamp { secs, frac: 0, counter: 0, node };
-    [s(100_000, 1), s(100_001, 2), s(103_601, 1), s(103_700, 2), s(107_300, 1)]
+    [s(99_000, 2), s(100_000, 1), s(101_000, 1), s(101_001, 1), s(104_700, 1), s(104_701, 1)]
 }
 
 fn small_space_with(full_k4: bool) -> Vec<Vec<u64>> {
@@ -449,7 +452,7 @@ fn small_space_with(full_k4: bool) -> Vec<Vec<u64>> {
         for _ in 0..k {
             let mut next = vec![];
             for v in &sel {
-                for i in 0..5u64 {
+                for i in 0..6u64 {
                     if !v.contains(&i) {
                         let mut w = v.clone();
                         w.push(i);
@@ -459,7 +462,7 @@ fn small_space_with(full_k4: bool) -> Vec<Vec<u64>> {
             }
             sel = next;
         }
-        let masks: Vec<u64> = if k == 4 && !full_k4 { vec![0, 15] } else { (0..(1u64 << k)).collect() };
+        let masks: Vec<u64> = if k == 4 && !full_k4 { vec![0, 1, 2, 4, 8, 15] } else { (0..(1u64 << k)).collect() };
         for order in &sel {
             for bits in 0..8u64.pow(k as u32) {
                 for m in &masks {
@@ -477,7 +480,7 @@ fn small_space_with(full_k4: bool) -> Vec<Vec<u64>> {
 }
 
 pub fn small_space() -> Vec<Vec<u64>> {
-    small_space_with(true)
+    small_space_with(false)
 }
 
 pub fn small_space_thorough() -> Vec<Vec<u64>> {
@@ -506,7 +509,7 @@ impl Prop for LocalSmall {
         let mut steps = vec![];
         let mut seen = std::collections::BTreeSet::new();
         for j in 0..k {
-            let si = (src.word() % 5) as usize;
+            let si = (src.word() % 6) as usize;
             let bits = src.word();
             if !seen.insert(si) {
                 continue; // cannot occur in the enumerated space
@@ -529,9 +532,10 @@ impl Prop for LocalSmall {
     }
 
     fn rule(&self) -> &'static str {
-        "exhaustive: every arrival sequence of 1-4 operations with distinct stamps out of five (two origins, 100000 s ... 107300 s: \
-         two forgiveness periods), keys {1,2}, insert / delete, source 0 / 1, a purge after every subset of the operations \
-         and one at the end; same oracle as part local"
+        "exhaustive: every arrival sequence of 1-4 operations with distinct stamps out of six (origin 2 at 99000 s; origin 1 at 100000 s, \
+         101000 s, 101001 s, 104700 s, 104701 s: both sources can move past a delete by less and by more than a forgiveness period), keys \
+         {1,2}, insert / delete, source 0 / 1, a purge after every subset of the operations (sequences of four, quick tier: no purge, a \
+         purge after one of them, or after each) and one at the end; same oracle as part local"
     }
 }
 
